@@ -456,7 +456,7 @@ unsafe fn dispose_general_node<T: RcObject>(
                 let cnt_next = cnt_curr.sub_strong(1).with_epoch(next_epoch as _);
 
                 #[cfg(feature = "circ_verif")]
-                crate::verif::yp(crate::verif::site::DISPOSE_CHILD_CAS, &next_ref.state as *const AtomicU64 as usize);
+                crate::verif::yp2(crate::verif::site::DISPOSE_CHILD_CAS, &next_ref.state as *const AtomicU64 as usize, cnt_curr.as_raw() as usize, cnt_next.as_raw() as usize);
                 if next_ref
                     .state
                     .compare_exchange(
